@@ -16,7 +16,10 @@ def _corr_skip(op, impl, model):
 
 PROP = dict(
     lean_modules=["Octo.Props.C14"],
-    required_theorems=[],
+    required_theorems=["Octo.C14.aggregate_correct", "Octo.C14.add_reports_emptiness", "Octo.C14.add_reports_emptiness_every_step",
+                       "Octo.C14.spec_representation_independent", "Octo.C14.oracle_accepts_iff_valid",
+                       "Octo.C14.oracle_multiset_is_net", "Octo.C14.C14_partial", "Octo.C14.C14_full_nonfloat",
+                       "Octo.C14.C14_refuted"],
     nontrivial=_nontrivial,
     corr_skip=_corr_skip,
     rule="TODO",
